@@ -270,8 +270,8 @@ pub fn run_range(e: &Entry, space: &Space, lo: u64, hi: u64) -> JobStats {
                 let a = lo + c * chunk;
                 let b = (a + chunk).min(hi);
                 for idx in a..b {
-                    let gen = std::panic::catch_unwind(std::panic::AssertUnwindSafe(|| space.get(idx, &mut buf)));
-                    if gen.is_err() {
+                    let made = std::panic::catch_unwind(std::panic::AssertUnwindSafe(|| space.get(idx, &mut buf)));
+                    if made.is_err() {
                         crate::machinery_failure(&format!(
                             "input generator panicked: entry {} space {} index {idx}: {}",
                             e.name,
